@@ -4,8 +4,10 @@ suite `literal` (coq/Literal/Model.v): integer types, boolean, decimal, string f
 suite `binary` (coq/Literal/BinaryModel.v): hexBinary, base64Binary with the hexlify/unhexlify/b64 codecs;
 suite `temporal` (coq/Literal/TemporalModel.v): date, time, dateTime on lexical forms of the XSD shape, and
 python date/time/datetime values;
-suite `conformance` (no Coq model, only an oracle written here): float/double, durations, bytes, and again
-date/time/binary forms of any shape."""
+suite `double` (coq/Literal/FloatModel.v): xsd:double / xsd:float on the exact fragment - INF, -INF, NaN, signed zero,
+integer-valued doubles below 2^53 written without a fraction, and python floats with such values;
+suite `conformance` (no Coq model, only an oracle written here): float/double outside that fragment, durations,
+language, anyURI, XMLLiteral, bytes, and again date/time/binary forms of any shape."""
 from __future__ import annotations
 
 import logging
@@ -28,10 +30,11 @@ from rdflib.xsd_datetime import Duration  # noqa: E402
 TRUSTED = [
     "Coq 8.16.1 kernel and vm_compute",
     "the XSD sides of coq/Literal/Model.v, BinaryModel.v, TemporalModel.v (lexical spaces, lexical-to-value maps, "
-    "xsd_range, denote, seven-property date/time values, the guard in_guard) as a reading of XML Schema part 2",
+    "xsd_range, denote, seven-property date/time values, the guard in_guard), and of FloatModel.v (the fragment of the "
+    "double lexical space, identity vs equality of double values) as a reading of XML Schema part 2",
     "CPython's int(str), Decimal(str), format(Decimal,'f'), str.strip, str.lower, binascii.unhexlify/hexlify, "
-    "binascii.a2b_base64 (non-strict) / b64encode, and date/time/datetime.fromisoformat / isoformat on forms of the "
-    "XSD shape, as modelled (character classes reflected from the running interpreter by harness/reflect_literal.py)",
+    "binascii.a2b_base64 (non-strict) / b64encode, date/time/datetime.fromisoformat / isoformat on forms of the "
+    "XSD shape, and float(str) / repr(float) on the exact fragment (specials, signed zero, integers below 2^53), as modelled (character classes reflected from the running interpreter by harness/reflect_literal.py)",
     "harness/c09.py: canonicalisation of python values (type(v) is int/bool/Decimal/str/bytes/date/time/datetime, "
     "Decimal.as_tuple, utcoffset in minutes), and - for the conformance suite only - the XSD oracle written in this file",
     "harness/reflect_literal.py: identification of converters / lexicalisers by object identity and probing of the "
@@ -43,7 +46,8 @@ ASSUMPTIONS = [
     "no language tags; rdflib.NORMALIZE_LITERALS and DAWG_LITERAL_COLLATION at the values reflected / default",
     "sNaN and NaN-with-payload forms of Decimal are outside the model (never generated for the modelled suite)",
     "xsd:float is judged with double precision (rdflib maps both float and double to Python float)",
-    "float/double, the three duration types, xsd:language, xsd:anyURI, rdf:XMLLiteral, python float/timedelta/Duration/"
+    "xsd:double / xsd:float OUTSIDE the exact fragment of coq/Literal/FloatModel.v (fractions, negative exponents, "
+    "values at or above 2^53, anything that needs rounding or shortest-repr printing), the three duration types, xsd:language, xsd:anyURI, rdf:XMLLiteral, python float/timedelta/Duration/"
     "bytes/Document values, gYear/gYearMonth lexicalisation: DIFFERENTIAL TESTING of rdflib against the oracle written "
     "in this file (suite conformance), no model and no theorem (C09_conformance_glue is bookkeeping only); rdf:HTML is "
     "not a recognised datatype in this installation (no html5rdf)",
@@ -802,9 +806,9 @@ class C09Conf(Suite):
         if r < 0.22:
             k = rng.random()
             if k < 0.45:
-                f = rng.choice(["0.0", "-0.0", "1.0", "0.1", "1e22", "1e21", "1e16", "123456789.125", "1e-7", "5e-324",
-                                "1.7976931348623157e308", "inf", "-inf", "nan", "0.30000000000000004", "-1.5", "1e100",
-                                "2.5e-5", "100.0", "9007199254740992.0"])
+                f = rng.choice(["0.1", "1e22", "1e21", "1e16", "123456789.125", "1e-7", "5e-324",
+                                "1.7976931348623157e308", "0.30000000000000004", "-1.5", "1e100",
+                                "2.5e-5", "9007199254740992.0", "0.5", "-2.25e-3"])
                 c = {"law": 1, "py": ["float", f]}
             elif k < 0.65:
                 c = {"law": 1, "py": ["datetime", rng.choice([1, 1000, 1999, 2020, 9999]), rng.choice([1, 2, 12]),
@@ -832,7 +836,9 @@ class C09Conf(Suite):
         else:
             d = rng.choice(CONF_DT)
             if d in ("double", "float"):
-                l = gen_double_form(rng)
+                # the exact fragment (specials, signed zero, integer-valued below 2^53) belongs to the model-backed
+                # suite `double`; here only what needs rounding / fractions / negative exponents
+                l = next((x for x in (gen_double_form(rng) for _ in range(20)) if not in_double_fragment(x)), "0.1")
             elif d in ("dateTime", "date", "time"):
                 l = gen_temporal_form(rng, d)
             elif d in ("hexBinary", "base64Binary"):
@@ -1280,4 +1286,157 @@ class C09Temporal(Suite):
                     yield {"k": "tlex", "d": "dateTime", "l": "2024-02-29T" + hms + fr + tz, "n": True}
 
 
-SUITES = [C09(), C09Conf(), C09Binary(), C09Temporal()]
+# ====================================================================== double suite (modelled fragment: coq/Literal/FloatModel.v)
+_RE_FRAG = re.compile(r"[+-]?([0-9]+)(?:\.0*)?(?:[eE]\+?([0-9]+))?\Z")
+
+
+def in_double_fragment(l):
+    """the forms coq/Literal/FloatModel.v has something to say about (must agree with fl_parse <> None:
+    a disagreement shows up as the model answering OFOut)"""
+    b = l[1:] if l[:1] in ("+", "-") else l
+    if b.lower() in ("inf", "infinity", "nan"):
+        return True
+    m = _RE_FRAG.match(l)
+    if not m:
+        return False
+    e = int(m.group(2) or 0)
+    return e <= 400 and int(m.group(1)) * 10 ** e < 2 ** 53
+
+
+def canon_fval(v):
+    if v is None:
+        return None
+    if type(v) is not float:
+        return "other"
+    if math.isnan(v):
+        return ["nan"]
+    if math.isinf(v):
+        return ["inf", v < 0]
+    if v == int(v) and abs(v) < 2 ** 53:
+        return ["int", math.copysign(1.0, v) < 0, abs(int(v))]
+    return "other"
+
+
+def coq_fval(cv):
+    if cv[0] == "nan":
+        return "FNaN"
+    if cv[0] == "inf":
+        return f"(FInf {cbool(cv[1])})"
+    return f"(FInt {cbool(cv[1])} {cN(cv[2])})"
+
+
+def obs_flit(x):
+    return {"lex": str.__str__(x), "ill": x.ill_typed, "val": canon_fval(x.value)}
+
+
+def coq_flit(o):
+    return ("{| f_lex := " + cstr(o["lex"]) + "; f_ill := " + copt(o["ill"], cbool) + "; f_val := "
+            + copt(o["val"], coq_fval) + " |}")
+
+
+F_INTS = ["0", "1", "7", "10", "100", "007", "00", "9007199254740991", "9007199254740992", "123456789012345", "4503599627370496",
+          "9007199254740993", "12", "900719925474099", "1000000000000000", "255"]
+F_FRAC = [None, None, "", "0", "00", "000000"]
+F_EXP = [None, None, None, "e0", "E0", "e1", "e+2", "E3", "e15", "e+0", "e16", "E+1", "e00"]
+F_SPECIAL = ["INF", "-INF", "+INF", "NaN", "inf", "-inf", "nan", "Infinity", "-infinity", "NAN", "+nan", "-NaN", "iNf"]
+F_PY = ["0.0", "-0.0", "1.0", "-1.0", "9007199254740991.0", "1e15", "inf", "-inf", "nan", "123456789.0", "-255.0",
+        "4503599627370496.0", "-9007199254740991.0", "100.0"]
+
+
+def gen_double_frag(rng):
+    for _ in range(50):
+        if rng.random() < 0.2:
+            l = rng.choice(F_SPECIAL)
+        else:
+            fr = rng.choice(F_FRAC)
+            l = rng.choice(["", "", "+", "-"]) + rng.choice(F_INTS) + ("" if fr is None else "." + fr) + (rng.choice(F_EXP) or "")
+        if in_double_fragment(l):
+            return l
+    return "0"
+
+
+class C09Double(Suite):
+    name = "double"
+    imports = "From RV Require Import Literal.FloatModel."
+    case_ty = "fcase"
+    obs_ty = "fobs"
+    model = "fmodel_obs"
+    oeq = "fobs_eqb"
+    spec = "fspec_ok"
+    kf = "fkf"
+    kf_ids = {}
+    corr = ("Literal.__new__/normalize/eq for xsd:double / xsd:float on the exact fragment (INF, -INF, NaN, signed zero, "
+            "integer-valued doubles below 2^53 written without a fraction): float(), _float_lexical")
+    quick_n = 500
+    thorough_n = 10000
+
+    def gen(self, rng, i):
+        r = rng.random()
+        if r < 0.6:
+            return {"k": "flex", "d": rng.choice(["double", "double", "float"]), "l": gen_double_frag(rng), "n": rng.random() < 0.7}
+        if r < 0.75:
+            return {"k": "fpy", "v": rng.choice(F_PY)}
+        return {"k": "fpair", "l1": gen_double_frag(rng), "n1": rng.random() < 0.7,
+                "l2": gen_double_frag(rng), "n2": rng.random() < 0.7}
+
+    def run_impl(self, c):
+        if c["k"] == "flex":
+            dt = XSD[c["d"]]
+            x = Literal(c["l"], datatype=dt, normalize=c["n"])
+            n1 = x.normalize()
+            n2 = n1.normalize()
+            re_ = Literal(str.__str__(x), datatype=dt, normalize=True)
+            return {"x": obs_flit(x), "n1": obs_flit(n1), "n2": obs_flit(n2), "re": obs_flit(re_),
+                    "eq": eqres(x, n1), "same": bool(x == n1),
+                    "dts": [dt_local(y.datatype) for y in (x, n1, n2, re_)]}
+        if c["k"] == "fpy":
+            x = Literal(float(c["v"]))
+            back = Literal(str.__str__(x), datatype=x.datatype)
+            return {"dt": dt_local(x.datatype), "x": obs_flit(x), "back": obs_flit(back), "eq": eqres(x, back)}
+        a = Literal(c["l1"], datatype=XSD.double, normalize=c["n1"])
+        b = Literal(c["l2"], datatype=XSD.double, normalize=c["n2"])
+        return {"same": bool(a == b), "eq": eqres(a, b)}
+
+    def coq_case(self, c):
+        if c["k"] == "flex":
+            return f"FLex {'FDouble' if c['d'] == 'double' else 'FFloat'} {cstr(c['l'])} {cbool(c['n'])}"
+        if c["k"] == "fpy":
+            return f"FPy {coq_fval(canon_fval(float(c['v'])))}"
+        return f"FPair {cstr(c['l1'])} {cbool(c['n1'])} {cstr(c['l2'])} {cbool(c['n2'])}"
+
+    def coq_obs(self, o):
+        if "re" in o:
+            if len(set(o["dts"])) != 1 or any(o[k]["val"] == "other" for k in ("x", "n1", "n2", "re")):
+                return "OFOut"
+            return (f"OFLex {coq_flit(o['x'])} {coq_flit(o['n1'])} {coq_flit(o['n2'])} {coq_flit(o['re'])} "
+                    f"{o['eq']} {cbool(o['same'])}")
+        if "back" in o:
+            if o["dt"] != "double" or o["x"]["val"] == "other" or o["back"]["val"] == "other":
+                return "OFOut"
+            return f"OFPy {coq_flit(o['x'])} {coq_flit(o['back'])} {o['eq']}"
+        return f"OFPair {cbool(o['same'])} {o['eq']}"
+
+    def features(self, c, o):
+        f = {"kind_" + c["k"]: 1}
+        if c["k"] == "flex":
+            f["dt_" + c["d"]] = 1
+            if o["x"]["lex"] != c["l"]:
+                f["lex_rewritten"] = 1
+            v = o["x"]["val"]
+            if isinstance(v, list):
+                f["value_" + v[0]] = 1
+        return f
+
+    def sweep(self):
+        for sign in ["", "+", "-"]:
+            for ip in F_INTS:
+                for fr in F_FRAC[1:]:
+                    for ex in F_EXP[2:]:
+                        l = sign + ip + ("" if fr is None else "." + fr) + (ex or "")
+                        if in_double_fragment(l):
+                            yield {"k": "flex", "d": "double", "l": l, "n": True}
+            for sp in ["INF", "NaN", "inf", "nan", "infinity"]:
+                yield {"k": "flex", "d": "float", "l": sign + sp, "n": sign != "+"}
+
+
+SUITES = [C09(), C09Conf(), C09Binary(), C09Temporal(), C09Double()]
